@@ -15,6 +15,9 @@ def code_const(path, name):
     return int(m.group(1))
 
 
+BURSTS = "{<<3, 1>>, <<1, 2>>}"      # two newer copies of the local LSP, descending and ascending
+
+
 def run(ctx):
     big = ctx.thorough()
     life = code_const("protocols/isis/server/lsp.go", "defaultLifetimeSeconds")
@@ -29,11 +32,11 @@ def run(ctx):
                                                        Jumps={1, 2, 7} if big else {1, 7}, MaxOwnSeq=4 if big else 2,
                                                        MaxDepth=99),
                                        invariants=INV + ["FastIsRun"], properties=PROPS, view="View", constraints=["SeqBound"]),
-               defs={"OwnDeltas": "{-1, 0, 1}" if big else "{0, 1}"}, label="design one remote id", timeout=3000, coverage=big)
+               defs={"OwnDeltas": "{-1, 0, 1}" if big else "{0, 1}", "Bursts": BURSTS}, label="design one remote id", timeout=3000, coverage=big)
     ctx.design("ISISLSDB", vf.cfg_text(constants=dict(small, Remote={"r1", "r2"}, MaxSeq=2 if big else 1, Lifes={2}, SnpLifes={2},
                                                        Jumps={1, 6}, MaxDepth=6 if big else 4, MaxOwnSeq=3),
                                        invariants=INV + ["FastIsRun"], properties=PROPS, view="View", constraints=["SeqBound"]),
-               defs={"OwnDeltas": "{0, 1}"}, label="design two remote ids", timeout=3000, workers=1)   # depth-bounded + VIEW: one worker keeps the explored set deterministic
+               defs={"OwnDeltas": "{0, 1}", "Bursts": BURSTS}, label="design two remote ids", timeout=3000, workers=1)   # depth-bounded + VIEW: one worker keeps the explored set deterministic
 
     # emission with the code's constants
     real = {"Ifaces": two, "OwnLifetime": life, "Threshold": thr, "MaxOwnSeq": 0}
@@ -45,7 +48,7 @@ def run(ctx):
     behs = []
     for label, consts, deltas in runs:
         r = ctx.tlc("ISISLSDB", vf.cfg_text(constants=consts, invariants=INV, view="View", action_constraints=["Emit"]),
-                    defs={"OwnDeltas": deltas}, workers=1, label=label, timeout=3000)
+                    defs={"OwnDeltas": deltas, "Bursts": BURSTS}, workers=1, label=label, timeout=3000)
         if not r.ok:
             raise vf.Infra("ISISLSDB violates its own invariants: %s" % r.violation)
         behs += vf.subsample(ctx.rng, r.behaviours, budget)
@@ -54,11 +57,11 @@ def run(ctx):
                 SnpLifes={life - 600}, Jumps={1, 2, 3, thr - 1, first - 1, first, first + 1} if big else {1, 2, first - 1, first})
     sdepth = 16 if big else 10
     rs = ctx.simulate("ISISLSDB", vf.cfg_text(next="NextSim", constants=dict(simc, MaxDepth=sdepth)), num=3000 if big else 150,
-                      depth=sdepth, defs={"OwnDeltas": "{-2, -1, 0, 1, 2}" if big else "{-1, 0, 1, 2}"}, label="sim", timeout=3000)
+                      depth=sdepth, defs={"OwnDeltas": "{-2, -1, 0, 1, 2}" if big else "{-1, 0, 1, 2}", "Bursts": BURSTS}, label="sim", timeout=3000)
     behs += rs.behaviours
 
     ctx.rule = ("one witness behaviour per transition of the ISISLSDB graph (two circuits; one remote LSP ID to depth %d with sequence "
-                "numbers 1..2, copies of the local LSP at -1/0/+1 of the stored number, lifetimes 1 and %d s; two remote IDs below and "
+                "numbers 1..2, copies of the local LSP at -1/0/+1 of the stored number, two newer copies (+3 then +1, +1 then +2) received before the updater runs (scheduler gate), lifetimes 1 and %d s; two remote IDs below and "
                 "above the local one to depth %d; CSNPs with the full range and the two half ranges; aging steps of 1 s and, up to and across the refresh of the local LSP, %d and %d s), "
                 "sub-sampled by VERIF_SEED, plus seeded random behaviours of %d steps (two remote IDs, local copies at -1..+2). "
                 "Replayed against the level-2 LSDB of a real isis/server.Server with two Up adjacencies: PDUs injected on the ethernet "
